@@ -13,6 +13,7 @@ ops (strings are hex of UTF-8, `-` = empty string; `-` in a register position = 
     setstart <thread> <ns>     setpstart <proc> <ns>
     lib <dst> <nameHex>        libsyms <lib> (<addr>:<size|->:<nameHex>)*      map <proc> <lib> <start> <end> <rel>
     unmap <proc> <start>       (remove_lib_mapping)            clearmaps <proc>   (clear_process_lib_mappings)
+    kmap <lib> <start> <end> <rel>   (add_kernel_lib_mapping)   kunmap <start>     (remove_kernel_lib_mapping)
     string <dst> <hex>         cat <dst> <nameHex> <color>     subcat <dst> <cat> <nameHex>
     flabel <dst> <thread> <str> <sub> <flags>
     flabelsrc <dst> <thread> <str> <fileStr|-> <line|-> <col|-> <sub> <flags>
@@ -170,6 +171,8 @@ def checkLine (c : Chk) (w : List String) : Option Chk :=
     pure c
   | ["map", p, l, s, e, r] => do
     c.is p .proc; c.is l .lib; let _ ← num? s; let _ ← num? e; let _ ← num? r; pure c
+  | ["kmap", l, s, e, r] => do c.is l .lib; let _ ← num? s; let _ ← num? e; let _ ← num? r; pure c
+  | ["kunmap", s] => do let _ ← num? s; pure c
   | ["unmap", p, s] => do c.is p .proc; let _ ← num? s; pure c
   | ["clearmaps", p] => do c.is p .proc; pure c
   | ["string", d, s] => do let _ ← unhexStr? s; c.define d .str
@@ -272,6 +275,8 @@ def toOp (r : Regs) (w : List String) : Option (Op × Option (String × Kind)) :
   | "libsyms" :: l :: rest => do pure (.libSyms (← r.lib l) (← syms? rest), none)
   | ["map", p, l, s, e, rl] => do
     pure (.addMapping (← r.proc p) (← r.lib l) (← num? s) (← num? e) (← num? rl), none)
+  | ["kmap", l, s, e, rl] => do pure (.addKernelMapping (← r.lib l) (← num? s) (← num? e) (← num? rl), none)
+  | ["kunmap", s] => do pure (.removeKernelMapping (← num? s), none)
   | ["unmap", p, s] => do pure (.removeMapping (← r.proc p) (← num? s), none)
   | ["clearmaps", p] => do pure (.clearMappings (← r.proc p), none)
   | ["string", d, s] => do pure (.string (← unhexStr? s), some (d, .str))
@@ -494,6 +499,8 @@ structure Spec where
   procs : List SProc := []
   threads : List SThread := []
   symtabs : List (String × List Sym) := []
+  /-- kernel library mappings (global) -/
+  kmaps : List SMap := []
   regs : List (String × SVal) := []
   visible : List Nat := []
   selected : List Nat := []
@@ -556,7 +563,8 @@ def Spec.resolve (s : Spec) (t : Nat) (mode k l a : String) : Option SAddr := do
   if mode = "abs" then
     let th ← s.threads[t]?
     let pr ← s.procs[th.proc]?
-    match pr.maps.find? (fun m => decide (m.start ≤ adj) && decide (adj < m.end_)) with
+    -- kernel mappings are consulted first, then the process's
+    match (s.kmaps ++ pr.maps).find? (fun m => decide (m.start ≤ adj) && decide (adj < m.end_)) with
     | some m => pure (.inLib (m.rel + (adj - m.start)) m.lib)
     | none => pure (.unknown adj)
   else
@@ -656,6 +664,20 @@ def Spec.step (s : Spec) (n : Nat) (w : List String) (out : String) : Spec :=
       s.modProc p (fun pr => { pr with maps :=
         ⟨st, en, rl, l⟩ :: pr.maps.filter (fun m => !(decide (m.start < en) && decide (st < m.end_))) })
     | _, _, _, _, _ => skipped s
+  | ["kmap", l, st, en, rl] =>
+    match s.libR l, num? st, num? en, num? rl with
+    | some l, some st, some en, some rl =>
+      let (s, go) := s.outcome n out false true
+      let s := if st < en then s else { s with oddMaps := true }
+      if !go then s else
+      { s with kmaps := ⟨st, en, rl, l⟩ :: s.kmaps.filter (fun m => !(decide (m.start < en) && decide (st < m.end_))) }
+    | _, _, _, _ => skipped s
+  | ["kunmap", st] =>
+    match num? st with
+    | some st =>
+      let (s, go) := s.outcome n out false false
+      if !go then s else { s with kmaps := s.kmaps.filter (fun m => m.start ≠ st) }
+    | none => s
   | ["unmap", p, st] =>
     -- remove_lib_mapping: the mapping that *starts* at the address is gone, nothing else changes
     match s.procR p, num? st with
